@@ -80,6 +80,11 @@ Fixpoint natlist_eqb (a b : list nat) : bool :=
   | x :: a', y :: b' => Nat.eqb x y && natlist_eqb a' b'
   | _, _ => false
   end.
+(* the order in which the handlers are called is not part of the statement (a coroutine handler dispatched by
+   dispatch_same runs as a task, after the synchronous ones): calls are compared as sorted lists *)
+Fixpoint ins_nat (x : nat) (l : list nat) : list nat :=
+  match l with [] => [x] | y :: r => if Nat.leb x y then x :: l else y :: ins_nat x r end.
+Definition sort_nat (l : list nat) : list nat := fold_right ins_nat [] l.
 Definition oexn_eqb (a b : option exn) : bool :=
   match a, b with None, None => true | Some x, Some y => exn_eqb x y | _, _ => false end.
 
@@ -96,7 +101,7 @@ Fixpoint corr_hist (univ : list obsv) (i : nat) (prev : snap) (d : dstate) (hist
       let s' := d_st d' in
       map (fun c => (100 * i + c)%nat)
           (zchk 1 (oexn_eqb (o_out m) (i_out ob))
-           ++ zchk 2 (natlist_eqb (map k_handler (o_calls m)) (i_calls ob))
+           ++ zchk 2 (natlist_eqb (sort_nat (map k_handler (o_calls m))) (sort_nat (i_calls ob)))
            ++ zchk 3 (forallb (fun o => memb (fst o) (dead_objs s')
                                          || nl_perm (st_hooks s' o) (snap_get cur o)) univ))
       ++ corr_hist univ (S i) cur (mkD (d_heap d') (mkState (hooks_of cur) (dead_handlers s') (dead_objs s'))) r
